@@ -162,6 +162,8 @@ class Run:
                 ctx.assume(REG.eval_clause(interp, r, c, env))
         if tag not in self.requires_sat:
             self.requires_sat[tag] = solve.quick_check(ctx.pc, 5000)
+        if c.variant:
+            ctx.ghost["variant0"] = REG.eval_clause(interp, c.variant, c, env)
         old = {("old_" + a): (v.copy() if isinstance(v, SArr) else v) for a, v in env.items()}
         ctx.ghost["thm_label"] = "post/" + tag
         try:
